@@ -27,4 +27,14 @@ TEXT = {
         "note": "Trusted: Lean kernel (+3 standard axioms), harness/abs/driver tie, bank keeper as ledger, distribution BeginBlocker only sweeping the fee collector. Assumes validator-accepted parameters with ratio sum <= 100, a valid unblocked stipend address.",
         "technique": "Lean 4 theorems over an exact sdk.Dec/BlockMint model, induction over block runs + per-block model/implementation correspondence",
     },
+    "C10": {
+        "level": "Theorems for every hash function, state and message of the x/filetree model: a successful delete/change-owner/viewer/editor message found the named entry and its signer is the owner, a successful post found the folder and its signer has edit access (C10_success_requires_right); nothing but the named entry changes (C10_touches_only_named_entry); add/remove change only the named ids, reset leaves exactly the owner's id; the posted child is owned by the folder's account; store invariant along all histories; the raw key address/owner/ cannot be aliased by crafted strings (C10_filesKey_injective). Tied to the code by the per-step correspondence with crafted separator-containing inputs.",
+        "note": "Trusted: Lean kernel (+3 standard axioms), harness/abs/driver tie, SHA-256 in Lean for execution only, encoding/json (lists compared as decoded maps). Hash collisions out of scope (ownership is the chain's predicate).",
+        "technique": "Lean 4 authorisation + frame theorems for all hash functions + per-step model/implementation correspondence",
+    },
+    "C20": {
+        "level": "Theorems for every hash function and every path, unbounded in segments and lengths: MerklePath of the joined segments is the fold (C20_merklePath_eq_fold), parent/child relation (C20_child_address), trailing slash neutrality, distinct segment lists give distinct addresses in collision-extraction form, over a character-level model of strings.Split/TrimSuffix. Tied to the code by differential evaluation of MerklePath/AddToMerkle/PostFile's returned address with SHA-256 executed in Lean.",
+        "note": "Trusted: Lean kernel (+3 standard axioms), the Lean SHA-256 used only for execution, harness/driver tie. Domain restrictions are explicit hypotheses (last segment non-empty, parent not ending in '/').",
+        "technique": "Lean 4 theorems over a character-level model of the path functions + differential evaluation against the Go functions",
+    },
 }
